@@ -489,6 +489,14 @@ func main() {
 		if strings.HasPrefix(res, "FAIL") {
 			os.Exit(1)
 		}
+	case "xtpl": // <seed> <n> <outdir>   (XTPL_BIN = binary built from the working tree)
+		seed, _ := strconv.ParseUint(os.Args[2], 10, 64)
+		n, _ := strconv.Atoi(os.Args[3])
+		out := openOut(os.Args[4])
+		for i := 0; i < n; i++ {
+			runXtplCase(NewRng(seed, uint64(i)), out, os.Args[4], i)
+		}
+		out.close()
 	case "plain": // <seed> <n> <outdir>
 		seed, _ := strconv.ParseUint(os.Args[2], 10, 64)
 		n, _ := strconv.Atoi(os.Args[3])
